@@ -1,3 +1,24 @@
+// C11 — fork-choice graph queries agree with the tree that was inserted.
+//
+// Oracle: zrntverif/fcmodel — direct walks of the explicit (root, slot) tree: CanonicalChain (head
+// back to and including the anchor along transition parents), InSubtree (ancestor-or-equal between
+// first nodes; unknown iff either root has no node), ClosestToSlot, CanonAtSlot with/without block,
+// GetSlot, Search by parent/slot/heads with the canonical split, FindHead; plus the node set after
+// every insertion (Indices()). Histories from zrntverif/fcsim (gap slots, forks, late blocks, double
+// proposals, prunes); query arguments are drawn from known nodes, never-inserted roots, pruned
+// roots, slots before the first node and beyond the head; every history ends with a sweep asking
+// every query kind about a bounded selection of all roots and nodes, and the same sweep runs after
+// each prune. Where a doc comment is ambiguous the adopted reading is written next to the model
+// function (fcmodel/model.go, "READING").
+//
+// Sensitivity (tools/trymut.py, quick tier, each CAUGHT):
+//
+//	proto_array.go  inSubtree: `if anchorIndex >= lookupIndex {` guard dropped (-> `if false {`)
+//	proto_array.go  ClosestToSlot: `for min.Slot+1 < max.Slot` -> `<=`
+//	proto_array.go  Search: `node.BestDescendant == headIndex` -> `node.BestChild == headIndex`
+//	proto_array.go  CanonicalChain: the anchor `break` dropped (walks past the anchor again)
+//	proto_array.go  CanonAtSlot: `if head.Slot < slot` -> `<=`
+//	proto_array.go  ProcessBlock: `TransitionParent: transitionParentIndex` -> `forkchoiceParentIndex`
 package c11
 
 import (
@@ -7,5 +28,21 @@ import (
 )
 
 func TestCheck(t *testing.T) {
-	fcsim.RunCheck(t, fcsim.Spec{Prop: "C11", Rule: "tbd", Quick: 300, Thorough: 3000, Sweep: "11" != "09"})
+	fcsim.RunCheck(t, fcsim.Spec{
+		Prop: "C11",
+		Rule: "C09 histories with ~45% query ops (CanonicalChain, InSubtree, ClosestToSlot, CanonAtSlot, GetSlot, Search x {heads, by parent, by slot, both}, FindHead) plus a closing sweep (every query kind over <=14 roots incl. pruned and never-inserted ones, slots first-1..head+1, <=16 anchor nodes). non-trivial = the tree has a node with >=2 fork-choice children and a gap-slot node and the answer is not the trivial one (anchor itself / empty / error); distinct key = (query kind, relation class of the arguments, before/after a prune)",
+		Assume: []string{
+			"fcmodel readings (each written next to the model function): InSubtree compares the roots' first nodes and reports unknown iff either root has no node; ClosestToSlot ranges over the anchor root's own nodes; CanonAtSlot follows the chain from the anchor root's first node, returns the head when the head lies before the slot and the zero NodeRef for an empty slot; Search ranges over block nodes in the transition subtree of the anchor node, heads = blocks without a child block, canonical = on CanonicalChain(anchor)",
+			"canonical-chain dependent queries are asked after the pending votes were flushed by a head computation (README: votes are applied in batches)",
+			"Search results are compared as sets (no order is documented)",
+		},
+		Mandatory: []string{"q-nontrivial:CanonicalChain", "q-nontrivial:InSubtree", "q-nontrivial:ClosestToSlot", "q-nontrivial:CanonAtSlot", "q-nontrivial:GetSlot", "q-nontrivial:Search",
+			"q-when:post-prune", "q-when:pre-prune", "q:GetSlot:never-inserted", "q:GetSlot:pruned", "q:GetSlot:known-first-node-is-gap", "q:InSubtree:other-branch", "q:InSubtree:ancestor", "q:InSubtree:reversed",
+			"q:ClosestToSlot:before-first-node", "q:ClosestToSlot:beyond-last-node", "q:CanonAtSlot:wb=true/mid-chain/empty-slot", "q:CanonAtSlot:wb=false/mid-chain", "q:CanonAtSlot:wb=false/beyond-head",
+			"q:CanonAtSlot:wb=false/at-head-slot", "q:Search:heads/canon+noncanon", "q:Search:by-parent/canon+noncanon", "q:Search:by-slot/noncanon-only"},
+		SampleTags: []string{"q-nontrivial:CanonicalChain", "q-nontrivial:Search", "q-nontrivial:CanonAtSlot", "q-when:post-prune"},
+		Quick:      3000, Thorough: 60000,
+		Sweep: true,
+		Tour:  fcsim.TourC11(),
+	})
 }
